@@ -122,3 +122,32 @@ TEXT = {
 }
 
 NOT_APPLICABLE = []
+
+PROPS["C08"] = dict(
+    level="fault_enumeration",
+    runs=dict(quick=6000, thorough=120000), budget_s=dict(quick=170, thorough=1700),
+    rule="one run = one seeded history producing an unclean multi-segment image; one evaluation = one damaged copy of it (zeros, truncation inside a record, single-bit flips in key/value/CRC - exhaustive over every bit of the last record when it is <= 64 bytes -, "
+         "length-field flips, bounded garbage, a well-formed record after a damaged one, two segments damaged at once, damage in non-newest segments) recovered by the real Open and compared with an independent decoder of the documented format "
+         "(contents, truncated lengths, no never-written key); distinct_nontrivial = distinct (damaged image digest, damage kind)",
+    real=REAL_SEQ, stub=STUB_SEQ,
+    assumptions=["claimed lengths in injected garbage are capped at 1 MiB here; unbounded claims are C19's subject", "the decoder is written from docs/design.md, independent of segment.go"],
+    must_reach=dict(quick=["zeros", "truncate", "bitflip", "lenflip", "garbage", "valid-after-invalid", "two-segments", "multi_segment_image", "exhaustive_bitflip_record", "segment_truncated_to_valid_prefix"],
+                    thorough=["bitflip", "two-segments"]),
+)
+PROPS["C19"] = dict(
+    level="fault_enumeration",
+    runs=dict(quick=3000, thorough=60000), budget_s=dict(quick=170, thorough=1700),
+    rule="one run = one seeded unclean image; one evaluation = the image with a 6-byte record header (key size in {0,1,255,65535,random}, value size in {0,1,4096,2^20,2^24,2^29-1,2^29,2^30,2^31-1,random}, both record types) "
+         "plus 0..5000 further bytes appended to the newest or an older segment (sometimes two), recovered by the real Open; measured: runtime.MemStats.TotalAlloc delta across Open <= 8 x bytes of all segments + 4 MiB, "
+         "largest read request - bytes remaining in the file <= 64 KiB, and the C08 oracle; distinct_nontrivial = distinct damaged images",
+    real=REAL_SEQ, stub=STUB_SEQ,
+    assumptions=["allocation is measured process-wide around Open in a worker that runs nothing else", "worker address space limited by RLIMIT_AS so a violation is a clean failure"],
+    must_reach=dict(quick=["garbage-header", "multi_segment_image"], thorough=["garbage-header"]),
+    mem_gb=10,
+)
+TEXT["C08"] = _t("harness", "deterministic simulation with fault injection: damaged segment tails injected into crash images on the simulated disk, oracle = independent decoder of the documented format",
+                 "Seeded unclean images with systematic tail damage (incl. exhaustive single-bit flips of small records) recovered by the real code and compared with an independent validating reader: contents, per-segment truncation, continuation with later segments.",
+                 "Damage space sampled by kind; bit flips exhaustive per chosen small record. Trusted: the decoder written from docs/design.md.", "DESIGN.md 4/C08")
+TEXT["C19"] = _t("harness", "deterministic simulation with fault injection: garbage record headers at segment tails; allocation and read-request size observed across the recovering Open",
+                 "Seeded unclean images whose tails claim arbitrary key/value lengths; the recovering Open must allocate and request reads in proportion to the bytes present, and discard the tail as in C08.",
+                 "Header values sampled at boundaries and at random; measurement via runtime.MemStats and the FS seam.", "DESIGN.md 4/C19")
